@@ -33,6 +33,8 @@ EXISTING = [
     [mrec("k2", "h:/a/b_1"), mrec("k3", "h:/a/2", [], ["h:/m::1"])],
     # a supplied converter whose own prefixes look like generated names (ns1, q2): numbering must not care
     [mrec("ns1", "unrelated:/", ["q2", "ns3"])],
+    # CURIE prefixes that equal the URIs' scheme: 'h:/a/1' is a CURIE of this converter, but not one of its URIs
+    [mrec("h", "other:/", ["k"])],
 ]
 DEFAULT_DELIMS = ("#", "/", "_")
 
